@@ -10,6 +10,7 @@
 -/
 import GilVerif.Model.C09
 import Mathlib.Tactic.Linarith
+import Mathlib.Tactic.IntervalCases
 
 namespace GilVerif.Props.C09
 open GilVerif.Gen.C09 GilVerif.Model.C09
@@ -87,6 +88,79 @@ theorem C09_cmyk_roundtrip_partial (c k t : Int) (hk : 0 ≤ k ∧ k ≤ c) (_hc
 
 /-- the hypotheses of the round trip theorem are met by the exact floor (non-vacuity, c=200 k=40: t = 189) -/
 example : (189 : Int) * (255 - 40) ≤ (200 - 40) * 255 ∧ 2 * ((200 - 40) * 255 - 189 * (255 - 40)) ≤ 3 * (255 - 40) := by decide
+
+/-! ## the `double` scale factor through the oracle table (extracted from the compiled code, Model/C09Table.lean) -/
+
+/-- what one table entry must satisfy: a byte, never above the exact scaled value d*255/(255-k), at most 1.5 below it -/
+private def entryOk (k d : Nat) : Bool :=
+  let t : Int := cmykScale k d; let y : Int := 255 - k; let dd : Int := d
+  decide (t ≤ 255 ∧ t * y ≤ dd * 255 ∧ 2 * (dd * 255 - t * y) ≤ 3 * y)
+
+/-- all 32 895 entries of the table extracted from the compiled code are within 1.5 of the exact scaled value and
+    never above it (kernel evaluation) -/
+theorem C09_cmyk_table_ok : (List.range 255).all (fun k => (List.range (256 - k)).all (fun d => entryOk k d)) = true := by
+  decide +kernel
+
+private theorem entry_facts (k d : Nat) (hk : k < 255) (hd : d < 256 - k) :
+    let t : Int := cmykScale k d
+    0 ≤ t ∧ t ≤ 255 ∧ t * (255 - (k : Int)) ≤ (d : Int) * 255 ∧ 2 * ((d : Int) * 255 - t * (255 - (k : Int))) ≤ 3 * (255 - (k : Int)) := by
+  have h := C09_cmyk_table_ok
+  rw [List.all_eq_true] at h
+  have h2 := h k (List.mem_range.mpr hk)
+  rw [List.all_eq_true] at h2
+  have h3 := h2 d (List.mem_range.mpr hd)
+  simp only [entryOk, decide_eq_true_eq] at h3
+  exact ⟨Int.natCast_nonneg _, h3.1, h3.2.1, h3.2.2⟩
+
+/-- rgb8 -> cmyk8 -> rgb8 returns every channel within one level, for ALL rgb8 pixels, for the model whose `double`
+    step is the table extracted from the compiled code (unconditional; the tie table = code is checked on every run) -/
+theorem C09_cmyk_roundtrip (r g b : Int) (hr : 0 ≤ r ∧ r ≤ 255) (hg : 0 ≤ g ∧ g ≤ 255) (hb : 0 ≤ b ∧ b ≤ 255) :
+    ∀ i, i < 3 →
+      -1 ≤ nth (colorConvert .cmyk .rgb .d8 .d8 (rgbToCmykT r g b)) i - nth [r, g, b] i
+      ∧ nth (colorConvert .cmyk .rgb .d8 .d8 (rgbToCmykT r g b)) i - nth [r, g, b] i ≤ 1 := by
+  -- one channel: original value x (so c = 255 - x), black k ≤ c
+  have chan : ∀ x k : Int, 0 ≤ x → x ≤ 255 → 0 ≤ k → k ≤ 255 - x → k < 255 →
+      -1 ≤ cmykChan .d8 (Int.ofNat (cmykScale k.toNat ((255 - x) - k).toNat)) k - x
+      ∧ cmykChan .d8 (Int.ofNat (cmykScale k.toNat ((255 - x) - k).toNat)) k - x ≤ 1 := by
+    intro x k hx0 hx1 hk0 hk1 hk2
+    have hkn : k.toNat < 255 := by omega
+    have hdn : ((255 - x) - k).toNat < 256 - k.toNat := by omega
+    have ef := entry_facts k.toNat ((255 - x) - k).toNat hkn hdn
+    simp only [] at ef
+    have ek : ((k.toNat : Nat) : Int) = k := Int.toNat_of_nonneg hk0
+    have ed : ((((255 - x) - k).toNat : Nat) : Int) = (255 - x) - k := Int.toNat_of_nonneg (by omega)
+    rw [ek, ed] at ef
+    have := C09_cmyk_roundtrip_partial (255 - x) k (cmykScale k.toNat ((255 - x) - k).toNat) ⟨hk0, hk1⟩ (by omega) hk2
+      ⟨ef.1, ef.2.1⟩ ef.2.2.1 ef.2.2.2
+    have e : (255 : Int) - (255 - x) = x := by omega
+    rw [e] at this
+    exact this
+  intro i hi
+  unfold rgbToCmykT invert_u8
+  simp only []
+  have e1 : (255 - r + 0) % 256 = 255 - r := by omega
+  have e2 : (255 - g + 0) % 256 = 255 - g := by omega
+  have e3 : (255 - b + 0) % 256 = 255 - b := by omega
+  rw [e1, e2, e3]
+  by_cases hk : min (255 - r) (min (255 - g) (255 - b)) = 255
+  · -- black: r = g = b = 0
+    simp only [hk, if_true]
+    have : r = 0 ∧ g = 0 ∧ b = 0 := by omega
+    obtain ⟨rfl, rfl, rfl⟩ := this
+    interval_cases i <;> decide
+  · simp only [hk, if_false]
+    have hk0 : 0 ≤ min (255 - r) (min (255 - g) (255 - b)) := by omega
+    have hk2 : min (255 - r) (min (255 - g) (255 - b)) < 255 := by omega
+    have cr := chan r _ hr.1 hr.2 hk0 (by omega) hk2
+    have cg := chan g _ hg.1 hg.2 hk0 (by omega) hk2
+    have cb := chan b _ hb.1 hb.2 hk0 (by omega) hk2
+    generalize min (255 - r) (min (255 - g) (255 - b)) = k at *
+    interval_cases i <;>
+      simp only [colorConvert, convNoAlpha, toRgb, nth, chConv, List.getD_cons_zero, List.getD_cons_succ] <;> assumption
+
+/-- white to white and black to black through rgb8 -> cmyk8 with the table step -/
+theorem C09_black_white_table : rgbToCmykT 255 255 255 = [0, 0, 0, 0] ∧ rgbToCmykT 0 0 0 = [0, 0, 0, 255] := by
+  decide +kernel
 
 /-! ## neutrals (the integer branches of the model; white through rgb -> cmyk needs the double factor: sweep) -/
 
